@@ -198,6 +198,10 @@ example : (newHostRule c18Ext (fun _ => true) (lit "0.0.0.0 example.org#note") 1
 example : newRuleKind c18Ext (fun _ => true) (lit "0.0.0.0 example.org\t## note") 1 =
     .host { text := lit "0.0.0.0 example.org\t## note", listID := 1, hostnames := [lit "example.org"],
             ip := { is4 := true, val := 0 } } := by decide
+/-- The model distinguishes the repaired code from the pinned tree: the old comment strip yields
+    the name `example.or` on the D11 replay. -/
+example : (newHostRuleOld c18Ext (fun _ => true) (lit "0.0.0.0 example.org#note") 1).toOption.map (·.hostnames) =
+    some [lit "example.or"] := by decide
 /-- The hypotheses of `c18_dispatch` are satisfiable (two names, tab run, `##` comment after a blank). -/
 example : isHostToken (lit "::ffff:1.2.3.4") = true ∧
     goodPairs [(lit " \t", lit "a.example"), (lit "\t", lit "b.example")] = true ∧
